@@ -247,10 +247,10 @@ class CFG:
             return True
         return b not in self.reachable([self.entry], avoid_nodes=set(nodes))
 
-    def must_follow(self, a: int, b: int, exits: Optional[Set[int]] = None) -> bool:
+    def must_follow(self, a: int, b: int, exits: Optional[Set[int]] = None, avoid_edges: Set[Edge] = frozenset()) -> bool:
         """Every path from a to a normal exit passes through b (b post-dominates a)."""
         exits = exits or {self.exit}
-        r = self.reachable([a], avoid_nodes={b})
+        r = self.reachable([a], avoid_nodes={b}, avoid_edges=avoid_edges)
         return not (r & exits) or a == b
 
     def must_follow_any(self, a: int, bs: Set[int], exits: Optional[Set[int]] = None) -> bool:
